@@ -1239,6 +1239,62 @@ def _shard_prefix_history(args):
     return acc
 
 
+# ------------------------------------------------------------------------------------------------
+# caller-update histories: what a sequence or a prefix formula hands out belongs to the caller.  A caller that goes
+# on with it in place (f += water, the termination the fasta documentation suggests) must not change what the code
+# tables serve afterwards.  One history = (type, code, way the Formula was obtained, in-place update), in its own fork.
+CU_WAYS = (("prefix", "f = periodictable.formula('%(t)s:%(c)s')"),
+           ("sequence.labile_formula", "f = fasta.Sequence('x', %(c)r, type=%(t)r).labile_formula"),
+           ("sequence.formula", "f = fasta.Sequence('x', %(c)r, type=%(t)r).formula"),
+           ("sequence.D2Omatch-then-labile", "s_ = fasta.Sequence('x', %(c)r, type=%(t)r); s_.D2Omatch(); f = s_.labile_formula"))
+CU_UPDATES = (("iadd-water", "f += periodictable.formula('H[1]2O')"),
+              ("iadd-self", "f += f"))
+
+
+def _cu_history(E, t, c, way, upd):
+    sub = Acc()
+    ns = {}
+    code = "import periodictable\nfrom periodictable import fasta\n" + way[1] % dict(t=t, c=c) + "\n" + upd[1] + "\n"
+    case = dict(kind="caller-update", type=t, code=c, way=way[0], update=upd[0])
+    other = [x for x in R.PLAIN[t] if x != c][0]
+    try:
+        exec(code, ns)
+    except Exception as e:
+        sub.count("caller_update_history_raises:%s" % type(e).__name__)
+        return sub
+    for raw in (c, c + c, c + other, other + c + other):
+        inner = Acc()
+        ok = check_plain(E, inner, t, raw) is not None
+        ok = check_prefix(E, inner, t, raw) and ok
+        sub.evaluations += inner.evaluations
+        sub.states += 1; sub.transitions += 1; sub.nontrivial += 1
+        for sig, rec in inner.viol.items():
+            sub.violation("after-caller-update:" + sig.split(":")[0] + ":" + way[0], dict(case, raw=raw), expected=rec["expected"],
+                          observed=rec["observed"],
+                          standalone=code + "print(fasta.Sequence('x', %r, type=%r).formula.atoms)\n"
+                                            "print(periodictable.formula(%r).atoms)\n# both must be the sum of the residues of %r\n"
+                                            % (raw, t, "%s:%s" % (t, raw), raw))
+        if not ok:
+            break
+    return sub
+
+
+def _shard_caller_update(args):
+    hists, seed = args
+    from ..histmc import in_fork
+    E = env()
+    acc = Acc()
+    for t, c, wi, ui in hists:
+        acc.merge(in_fork(lambda t=t, c=c, wi=wi, ui=ui: _cu_history(E, t, c, CU_WAYS[wi], CU_UPDATES[ui])))
+    acc.count("caller_update_histories", len(hists))
+    return acc
+
+
+def caller_update_space():
+    return [(t, c, wi, ui) for t in TYPES for c in R.codes(t) if c not in "*- "
+            for wi in range(len(CU_WAYS)) for ui in range(len(CU_UPDATES))]
+
+
 def run(ctx):
     E = env()
     acc = ctx.acc
@@ -1297,6 +1353,10 @@ def run(ctx):
         for hs in HIST_STRINGS:
             jobs.append((_shard_prefix_history, ((t, hs), hist_depth, ctx.seed)))
     acc.info["max_prefix_history_depth"] = hist_depth
+    cus = caller_update_space()
+    for part in chunks(cus, 16):
+        jobs.append((_shard_caller_update, (part, ctx.seed)))
+    acc.info["caller_update_history_space"] = len(cus)
     jobs = rotate(jobs, ctx.seed)
     ctx.pmap(_dispatch, jobs)
     acc.traces = acc.evaluations          # every execution of the real code is compared
@@ -1343,6 +1403,13 @@ def replay(ctx, case, signature=None):
         sub = in_fork(work)
         for sig, rec in sub.viol.items():
             acc.violation("prefix-history:" + sig, case, expected=rec["expected"], observed=rec["observed"])
+    elif kind == "caller-update":
+        from ..histmc import in_fork
+        way = [w for w in CU_WAYS if w[0] == case["way"]][0]
+        upd = [u for u in CU_UPDATES if u[0] == case["update"]][0]
+        sub = in_fork(lambda: _cu_history(E, case["type"], case["code"], way, upd))
+        for sig, rec in sub.viol.items():
+            acc.violation(sig, rec["case"], expected=rec["expected"], observed=rec["observed"], standalone=rec.get("standalone"))
     elif kind in ("read_fasta", "load", "name", "interleave"):
         tmpdir = tempfile.mkdtemp(prefix="verif-c18-")
         try:
